@@ -420,7 +420,8 @@ def scratch_cells(m: Macro) -> Dict[str, int]:
 SCRATCH_EXCEPTIONS: Dict[Tuple[str, int, str, str], str] = {
     ('hex.div', 7, 'q', 'init-first'): 'the quotient is documented `q = a/b` but built by shifting: `shl_hex n, q` runs in each of the n loop '
                                        'iterations, so every hex of the caller\'s value is shifted out before the macro is left',
-    ('hex.div', 7, '_b', 'covered'): 'the top hex of _b is zero at load, `shl_hex nb+1, _b` shifts into it and the four `shr_bit nb+1, _b` of '
+    # '#0': the first declared scratch cell of the macro (`_b` today) - a local label is keyed by its declaration index
+    ('hex.div', 7, '#0', 'covered'): 'the top hex of _b is zero at load, `shl_hex nb+1, _b` shifts into it and the four `shr_bit nb+1, _b` of '
                                      'the same iteration shift it out again: it is zero again whenever the macro is left',
 }
 
@@ -639,7 +640,10 @@ def rule_scratch(rep: Report, stl: Stl, prop: str, files: List[str], floor: int,
             if what == 'not-judged':
                 rep.uncovered.append(f'{key[0]}/{key[1]}:{L} (first use has no documented assignment formula for it)')
                 continue
-            exc = (key[0], key[1], L, what)
+            # a local label is identified by the position of its declaration among the macro's scratch cells ('#k'), so that
+            # renaming it keeps the reasoned exception attached to the same cell
+            order_ = [nm_ for nm_, _ in sorted(cells.items(), key=lambda t: t[1])]
+            exc = (key[0], key[1], f'#{order_.index(L)}' if L in order_ else L, what)
             if bad and exc in SCRATCH_EXCEPTIONS:
                 used_exceptions.add(exc)
                 rep.ok(rule, f'{key[0]}/{key[1]}:{L}:{what}', f'listed exception: {SCRATCH_EXCEPTIONS[exc]}', f'{m.file}:{m.line} {m.name}')
@@ -833,6 +837,7 @@ def rule_lut(rep: Report, stl: Stl, w: int = 64) -> None:
             rep.fail(rule, name, f'table is rep(256, {op[2]}) {op[3]}', site, expected=f'rep(256, d) {callee}')
             return
         bad_res, bad_next = [], []
+        roles: Dict[str, str] = {}
         for d in range(256):
             env = dict(base)
             env['d'] = d
@@ -852,14 +857,48 @@ def rule_lut(rep: Report, stl: Stl, w: int = 64) -> None:
                     wl[res_base] = 1
             if _lin_key(got_res) != _lin_key(wl):
                 bad_res.append((d, dict(got_res), wl))
-            wn_sym, wn_off = ref_next(dst, src, d)
-            wn = {wn_sym: 1, '': wn_off * dw}
-            if _lin_key(got_next) != _lin_key(wn):
-                bad_next.append((d, dict(got_next), wn))
+            # the routing target is named by its ROLE; which local label of the init macro plays the role is read off the table
+            # itself (the first entry that uses the role binds it) and must then be the same label for every entry - a consistent
+            # renaming of the macro's local labels changes nothing
+            wn_role, wn_off = ref_next(dst, src, d)
+            syms = [k for k in got_next if k != '' and got_next[k] != 0]
+            if len(syms) == 1 and got_next[syms[0]] == 1:
+                bound = roles.setdefault(wn_role, syms[0])
+                if bound != syms[0] or got_next.get('', 0) != wn_off * dw or list(roles.values()).count(bound) != 1:
+                    bad_next.append((d, dict(got_next), {f'<{wn_role}={bound}>': 1, '': wn_off * dw}))
+            else:
+                bad_next.append((d, dict(got_next), {f'<{wn_role}>': 1, '': wn_off * dw}))
         rep.check(not bad_res, rule, f'{name}:result', 'all 256 entries equal the documented function' if not bad_res else
                   f'{len(bad_res)} entries differ, first d={bad_res[0][0]:#04x}: table {bad_res[0][1]} vs documented {bad_res[0][2]}', site,
                   expected='(dst OP src) ^ dst per entry')
-        rep.check(not bad_next, rule, f'{name}:next', 'all 256 entries route as documented' if not bad_next else
+        # what the roles are: the labels must be local labels of the init macro, and a role whose block is recognisable is checked:
+        #   clean_table_entry  -> the label in front of the call of the shared `clean_table_entry__table` macro
+        #   flip_carry         -> the label in front of `rep(256, i) stl.fj <dst>+dbit+8, <clean label>+i*dw` (flip bit 8, then clean)
+        lab_next: Dict[str, Tuple[Any, ...]] = {}
+        for i_, st_ in enumerate(m.body[:-1]):
+            if st_[0] == 'label':
+                lab_next[st_[1].split('.')[-1]] = m.body[i_ + 1]
+        for role_, lab_ in roles.items():
+            short = lab_.split('.')[-1]
+            if short not in m.local:
+                bad_next.append((-1, {lab_: 1}, {f'<{role_}: a local label of {m.name}>': 1}))
+                continue
+            nx = lab_next.get(short)
+            if role_ == 'clean_table_entry' and not (nx is not None and nx[0] == 'call' and nx[1].endswith('clean_table_entry__table')):
+                bad_next.append((-1, {lab_: 1}, {'<the label in front of clean_table_entry__table>': 1}))
+            if role_ == 'flip_carry':
+                okf = nx is not None and nx[0] == 'rep' and nx[3] == 'stl.fj' and len(nx[4]) == 2
+                if okf:
+                    try:
+                        f0 = ev(nx[4][0], {**base, nx[2]: 5})
+                        j0 = ev(nx[4][1], {**base, nx[2]: 5})
+                        okf = f0.get('', 0) == base['dbit'] + 8 and len([k for k in f0 if k != '']) == 1 and \
+                            j0.get(roles.get('clean_table_entry', '?'), 0) == 1 and j0.get('', 0) == 5 * dw and conc(ev(nx[1], base)) == 256
+                    except (NeedConcrete, OpaqueValue, AnalysisError):
+                        okf = False
+                if not okf:
+                    bad_next.append((-1, {lab_: 1}, {'<the label in front of the table that flips bit 8 of dst and goes on to the clean entry>': 1}))
+        rep.check(not bad_next, rule, f'{name}:next', f'all 256 entries route as documented (roles {roles})' if not bad_next else
                   f'{len(bad_next)} entries differ, first d={bad_next[0][0]:#04x}: {bad_next[0][1]} vs {bad_next[0][2]}', site)
 
     X = lambda f: (lambda dst, src: f(dst, src) ^ dst)
@@ -1149,6 +1188,107 @@ def rule_jumpword_restore(rep: Report, stl: Stl, prop: str, files: List[str], fl
             mine = sorted({b for b in bad if f"'{p_}'" in b or f'[{p_!r}]' in b or p_ in b})
             rep.check(not mine, rule, f'{key[0]}/{key[1]}:{p_}+w -> {l}', mine[0] if mine else f'restored on every path ({len(seen)} states explored)',
                       f'{m.file}:{m.line} {m.name}', expected='the same wflip again before any exit')
+
+
+# ---------------------------------------------------------------- FJ.CARRY-TOP (in-place arithmetic reaches the top of the assigned extent)
+
+CARRY_TOP_EXCEPTIONS: Dict[Tuple[str, int, str, str], str] = {
+    ('bit.hex2ascii', 2, 'ascii', 'bit.dec'): 'the low three bits hold 1..6 here (hex in 0xA..0xF xor-ed in, bit 3 cleared by the branch): the decrement cannot borrow',
+    # '#0': the first declared scratch cell of the macro (`R` today) - a local label is keyed by its declaration index
+    ('bit.div', 5, '#0', 'bit.div.div_step'): 'long division over a sliding n-bit window of the 2n-bit remainder register: each step subtracts inside its window by design',
+}
+_ARITH_UPDATES = {'+=', '-=', '++', '--'}
+
+
+def doc_update_ops(m: Macro) -> Dict[str, Set[str]]:
+    """parameter -> the in-place operators (`+=`, `^=`, `++` ..) of the formula lines of the doc block that write it"""
+    res: Dict[str, Set[str]] = {}
+    for line in m.doc:
+        body = line[2:]
+        if not body.startswith('   '):
+            continue
+        text = re.sub(r'//.*$', '', body.strip()).rstrip(';')
+        em = _EFFECT.match(text)
+        if em:
+            for q in set(re.findall(r'(?<![\w.])([A-Za-z_]\w*)', re.sub(r'\[[^\]]*\]', '', em.group('lhs')))) & set(m.params):
+                res.setdefault(q, set()).add(em.group('op'))
+    return res
+
+
+def rule_carry_top(rep: Report, stl: Stl, prop: str, files: List[str], floor: int, w: int = 64) -> None:
+    rule = f'{prop}.CARRY-TOP'
+    rep.rule(rule, 'a vector that a macro first assigns over K cells (documented plain assignment: zero / mov / set) and then updates '
+             'arithmetically in place (a callee documented `+=`, `-=`, `++`, `--`) is updated up to its top cell: the update '
+             'extent ends where the assigned extent ends, so a carry / borrow out of the updated part is not lost inside the '
+             'value (`zero K1, x` followed by `add K2, x, ..` with K2 < K1 drops the carry into the top cells). Footprints for size '
+             'parameters in {4,5,8}; two reasoned exceptions', floor)
+    fpx = Footprints(stl, w)
+    dw = 2 * w
+    used: Set[Tuple[str, int, str, str]] = set()
+    for key, m in sorted(stl.macros.items()):
+        if m.file not in files:
+            continue
+        names = size_params(fpx, key)
+        if names is None:
+            continue
+        tracked = set(scratch_cells(m)) | {p for p in m.params if p not in names}
+        if not tracked:
+            continue
+        verdict: Dict[Tuple[str, int, str], List[str]] = {}
+        for combo in itertools.product(*[EXTRA_SIZES.get(nm, SIZES) for nm in names]):
+            sz = tuple(zip(names, combo))
+            pre = PRECONDITIONS.get(key)
+            if pre is not None and not pre(dict(sz)):
+                continue
+            env: Dict[str, Any] = dict(fpx.base)
+            for q in m.params:
+                env[q] = {q: 1}
+            env.update(dict(sz))
+            try:
+                touches = fpx.stmt_touches(key, sz, tracked)
+            except (NeedConcrete, OpaqueValue, AnalysisError, ZeroDivisionError):
+                continue
+            top: Dict[str, int] = {}
+            for idx, op in enumerate(m.body):
+                if op[0] not in ('call', 'rep'):
+                    continue
+                name, args = (op[1], op[2]) if op[0] == 'call' else (op[3], op[4])
+                cal = stl.macros.get((name, len(args)))
+                if cal is None:
+                    continue
+                eff, ops = doc_effects(cal), doc_update_ops(cal)
+                env2 = dict(env)
+                if op[0] == 'rep':
+                    env2[op[2]] = 0
+                for q, a in zip(cal.params, args):
+                    try:
+                        lf = ev(a, env2)
+                    except (NeedConcrete, OpaqueValue, AnalysisError):
+                        continue
+                    syms = [k for k in lf if k != '']
+                    if len(syms) != 1 or syms[0] not in tracked or lf[syms[0]] != 1 or not touches[idx][syms[0]]:
+                        continue
+                    L = syms[0]
+                    t = max(touches[idx][L]) // dw + 1
+                    if eff.get(q) == 'assign':
+                        top[L] = max(top.get(L, 0), t)
+                    elif eff.get(q) == 'update' and (ops.get(q, set()) & _ARITH_UPDATES) and L in top:
+                        bad = verdict.setdefault((L, op[-1], name), [])
+                        if t < top[L]:
+                            bad.append(f'{dict(sz)}: `{name}` updates {L} up to cell {t} of the {top[L]} cells assigned before it')
+        for (L, line, name), bad in sorted(verdict.items()):
+            order_ = [nm_ for nm_, _ in sorted(scratch_cells(m).items(), key=lambda t: t[1])]
+            exc = (key[0], key[1], f'#{order_.index(L)}' if L in order_ else L, name)
+            if bad and exc in CARRY_TOP_EXCEPTIONS:
+                used.add(exc)
+                rep.ok(rule, f'{key[0]}/{key[1]}:{L}:line {line} {name}', f'listed exception: {CARRY_TOP_EXCEPTIONS[exc]}', f'{m.file}:{line} {m.name}')
+                continue
+            rep.check(not bad, rule, f'{key[0]}/{key[1]}:{L}:line {line} {name}', bad[0] if bad else 'the update reaches the top of the assigned extent',
+                      f'{m.file}:{line} {m.name}', expected='update extent ends at the top cell of the assigned extent')
+    for exc in CARRY_TOP_EXCEPTIONS:
+        mm_ = stl.macros.get((exc[0], exc[1]))
+        if mm_ is not None and mm_.file in files and exc not in used:
+            rep.notes.append(f'{rule}: the listed exception {exc} no longer applies (remove it after review)')
 
 
 # ---------------------------------------------------------------- FJ.BYTE-CLASS (input parsers: which bytes go where)
